@@ -50,6 +50,12 @@ def optHex (j : Json) (k : String) : R (Option Nat) :=
   | none => pure none
   | some v => do let s ← getStr v; return some (← parseHex s)
 
+/-- array field, absent or null = empty -/
+def arrField (j : Json) (k : String) : R (Array Json) :=
+  match fieldOpt j k with
+  | some a => a.getArr?
+  | none => pure #[]
+
 def getBool (j : Json) (k : String) : Bool :=
   match j.getObjVal? k with
   | .ok (.bool b) => b
@@ -129,7 +135,9 @@ def decNames (j : Json) : R UnitNames := do
 
 def decUnits (j : Json) : R Units := do
   let base ← decNames (← field j "base")
-  let ms ← (← field j "mults").getArr?
+  let ms ← match fieldOpt j "mults" with
+    | some a => a.getArr?
+    | none => pure #[]
   let mults ← ms.toList.mapM fun e => do
     let p ← e.getArr?
     return (← parseDec (← getStr p[0]!), ← decNames p[1]!)
@@ -157,16 +165,16 @@ partial def decTy (j : Json) : R Ty := do
   | "bool" => return .bool
   | "pattern" => return .pattern
   | "enumInt" =>
-    let a ← (← field j "vals").getArr?
+    let a ← arrField j "vals"
     return .enumInt (← a.toList.mapM fun x => do parseDec (← getStr x)) (← optUnits j)
   | "enumStr" =>
-    let a ← (← field j "vals").getArr?
+    let a ← arrField j "vals"
     return .enumStr (← a.toList.mapM getStr)
   | "list" => return .list (← decTy (← field j "item")) (← optDec j "min") (← optDec j "max")
   | "map" => return .map (← decTy (← field j "k")) (← decTy (← field j "v")) (← optDec j "min") (← optDec j "max")
   | "obj" =>
     let id ← getStr (← field j "id")
-    let ps ← (← field j "props").getArr?
+    let ps ← arrField j "props"
     let props ← ps.toList.mapM fun e => do
       let p ← e.getArr?
       let name ← getStr p[0]!
@@ -187,14 +195,14 @@ partial def decTy (j : Json) : R Ty := do
     return .obj id props
   | "oneOf" =>
     let intKey := getBool j "intKey"
-    let ms ← (← field j "members").getArr?
+    let ms ← arrField j "members"
     let members ← ms.toList.mapM fun e => do
       let p ← e.getArr?
       return (← decKey intKey p[0]!, ← decTy p[1]!)
     return .oneOf intKey (← getStr (← field j "disc")) (getBool j "inlined") members
   | "ref" => return .ref (← getStr (← field j "id"))
   | "scope" =>
-    let os ← (← field j "objs").getArr?
+    let os ← arrField j "objs"
     let objs ← os.toList.mapM fun e => do
       let p ← e.getArr?
       return (← getStr p[0]!, ← decTy p[1]!)
